@@ -253,6 +253,10 @@ func Prot(b string) world.Req {
 func Guard(b string) world.Req {
 	return world.Req{Browser: b, Method: "GET", Path: "/app/guard", ForceForm: true, Tag: world.Tag{Kind: "guard"}}
 }
+// GuardAt requests another path that is served behind the same two middlewares.
+func GuardAt(b, path string) world.Req {
+	return world.Req{Browser: b, Method: "GET", Path: path, ForceForm: true, Tag: world.Tag{Kind: "guard"}}
+}
 func Full(b string) world.Req {
 	return world.Req{Browser: b, Method: "GET", Path: "/app/full", ForceForm: true, Tag: world.Tag{Kind: "full"}}
 }
